@@ -42,8 +42,9 @@ def _init_worker(modname, quiet):
     global _MOD
     import importlib
     _MOD = importlib.import_module(modname)
-    from . import forms
+    from . import forms, inherit
     forms.install(_MOD)
+    inherit.install(_MOD)
     if quiet:
         devnull = os.open(os.devnull, os.O_WRONLY)
         os.dup2(devnull, 1)
